@@ -104,6 +104,15 @@ Submit == /\ c.st = "IDLE" /\ cOut = <<>> /\ wire = <<>>
 CTerminal(st) == [c EXCEPT !.st = st, !.ddl = NONE]
 Outcome(k) == cOut' = Append(cOut, [k |-> k, rx |-> IF k = "ack" THEN c'.rx ELSE <<>>, at |-> now])
 
+\* a request the client cannot send at all (it needs segments the peer -- or the client itself -- does not handle, or more
+\* of them than the peer is known to accept): refused on the spot; the application gets a local abort (4 = segmentation
+\* not supported, 11 = APDU too long), nothing goes on the wire and nothing is kept.  Whether a request is of that kind is a
+\* matter of sizes and capabilities (Caps.tla, C12); here it is an input of the trace.
+LocalRefusals == {"abort_local_4", "abort_local_11"}
+SubmitRefused(r) == /\ c.st = "IDLE" /\ cOut = <<>> /\ wire = <<>> /\ r \in LocalRefusals
+                    /\ c' = CTerminal("ABORTED") /\ Outcome(r) /\ tx' = <<>>
+                    /\ UNCHANGED <<now, nDrop, nDup, nDelay, nShrink, s, sInd, sApp>>
+
 \* fill_window on the client: the segment index is the sequence number in the code (IndexFromSeq)
 CFill(sq, w) ==
    LET startIdx == IF IndexFromSeq THEN sq ELSE c.base + ((sq + SeqMod - (c.base % SeqMod)) % SeqMod)
@@ -370,7 +379,7 @@ IsData(f) == f.k \in {"CR", "CA"}
 \* C04
 AtMostOneOutcome == Len(cOut) <= 1
 ExactlyOneAtQuiescence == Quiescent => Len(cOut) = 1
-OutcomeKind == \A i \in 1..Len(cOut) : cOut[i].k \in {"ack", "error", "abort_peer", "abort_noresp", "abort_invalid"}
+OutcomeKind == \A i \in 1..Len(cOut) : cOut[i].k \in {"ack", "error", "abort_peer", "abort_noresp", "abort_invalid"} \cup LocalRefusals
 NoResidue == Quiescent => c.st \in {"COMPLETED", "ABORTED"} /\ s.st \in {"NOTXN", "GONE"}
 \* once the outcome was delivered the client emits nothing more for the transaction, except the final segment ack /
 \* abort that is part of the step delivering the outcome
